@@ -58,8 +58,15 @@ def gen_run(rng, cfg):
     sloppy = rng.choice([0.0, 0.02, 0.1])
     actors = []
     shared_prog = None
+    kinds_w = [("parse", 5), ("roundtrip", 2), ("gen", 2), ("visit", 1.5), ("lex", 1), ("parse_file", 0.7), ("mixed", 2)]
+    # swarm "theme": a third of the runs use one actor kind throughout (two
+    # generators / two visitors / two lexers in flight at once)
+    theme = _pick_weighted(rng, kinds_w) if rng.random() < 0.35 else None
+    main_gen = (rng.random() < 0.4, rng.choice(["plain", "plain", "Upper", "UpperMore"]))
+    if theme in ("gen", "visit") and rng.random() < 0.7:
+        mode = "line"  # generator / visitor operations are atomic in token mode
     for i in range(n):
-        kind = _pick_weighted(rng, [("parse", 5), ("roundtrip", 2), ("gen", 2), ("visit", 1.5), ("lex", 1), ("parse_file", 0.7), ("mixed", 2)])
+        kind = theme or _pick_weighted(rng, kinds_w)
         nops = rng.choice([1, 1, 2, 2, 3, 4])
         pg = W.ProgGen(rng, actor=i, size=size, depth=depth, sloppy=sloppy, marks=True)
         ops = []
@@ -88,8 +95,11 @@ def gen_run(rng, cfg):
             op = {"op": opk, "filename": rng.choice(["act%d.c" % i, "act%d.c" % i, "", "same.c"])}
             if opk == "gen":
                 op["select"] = [rng.choice(GEN_SELECT), rng.randrange(8), rng.sample(GEN_SELECT[1:10], 3)]
-                op["reduce"] = rng.random() < 0.4
-                op["gencls"] = rng.choice(["plain", "plain", "Upper", "UpperMore"])
+                if rng.random() < 0.7:
+                    op["reduce"], op["gencls"] = main_gen
+                else:
+                    op["reduce"] = rng.random() < 0.4
+                    op["gencls"] = rng.choice(["plain", "plain", "Upper", "UpperMore"])
             elif opk == "parse_file":
                 op["use_cpp"] = rng.random() < 0.4
                 if faulty and rng.random() < 0.25:
@@ -160,7 +170,7 @@ def gen_run(rng, cfg):
         "policy": policy,
         "actors": actors,
         "check_fresh": False,
-        "swarm": {"faulty": faulty, "size": size, "depth": depth, "long": bool(long_inputs)},
+        "swarm": {"faulty": faulty, "size": size, "depth": depth, "long": bool(long_inputs), "theme": theme},
     }
     return spec
 
